@@ -80,9 +80,9 @@ Lemma b64_next_start_form_no_cross :
 Proof.
   intros H i n im mm Hm Hf.
   pose proof gen_end_form_sound as C. rewrite H in C. cbn [end_form_claim] in C.
-  rewrite !C.
+  rewrite (C F64 (i + 1)%Z n im mm), (C F64 i n im mm). clear C.
   cbv [slot_next_start_form b64_fallback_taken b64_margin_secs F64 T add sub mul div ofZ leb ltb fst snd] in *.
-  rewrite Hf. apply sub_nonneg_not_above. exact Hm.
+ rewrite Hf. apply sub_nonneg_not_above. exact Hm.
 Qed.
 
 (* ------------------------------------------------------------------ sum form: two runners authorised *)
